@@ -2,6 +2,10 @@ package props
 
 import (
 	"fmt"
+	"os"
+	"path/filepath"
+	"strings"
+	"time"
 
 	"github.com/go-task/task/v3/zverif/vlab"
 )
@@ -66,6 +70,27 @@ func c02Check(pg *Prog) func(x *vlab.Exec) []vlab.Violation {
 				if st, which := pg.PrevEntries(ti, e.Inst(), j, item, e.Pos); st != vlab.StOK {
 					out = append(out, vlab.V("C02", "entry_started_before_previous_finished", entryTag(pg, t, which),
 						fmt.Sprintf("%s entry %s started at position %d but earlier entry %s had not finished", e.Inst(), e.Idx, e.Pos, which)))
+				}
+			}
+			// R2': when an entry starts, nothing below an earlier call entry of the same instance
+			// is still running (whatever the outcome of that call was: a failed or cancelled
+			// callee has wound down completely - deps, deferred commands - before the caller goes on)
+			if j < len(t.Cmds) {
+				for i, c := range t.Cmds {
+					if c.Call == nil || c.Defer || c.Call.VP != "" || i == j || !(i < j || t.Cmds[j].Defer) {
+						continue
+					}
+					base := e.VP + ">" + e.Task + fmt.Sprintf(".c%d", i)
+					for _, l := range ev[e.Pos+1:] {
+						if l.Task == "" || !strings.HasPrefix(l.VP, base) {
+							continue
+						}
+						if rest := l.VP[len(base):]; rest == "" || rest[0] == '#' || rest[0] == '>' {
+							out = append(out, vlab.V("C02", "callee_still_running_when_caller_continued", entryTag(pg, t, fmt.Sprint(i)),
+								fmt.Sprintf("%s entry %s started at position %d while %s, reached through its earlier call entry %d, was still running (event %c %s at %d)", e.Inst(), e.Idx, e.Pos, l.Inst(), i, l.K, l.Idx, l.Pos)))
+							break
+						}
+					}
 				}
 			}
 			// walk up the call path
@@ -230,6 +255,14 @@ func c02Progs() map[string]*Prog {
 		{Name: "other", Cmds: []C{CallS("s", "="), P()}},
 		{Name: "s", Run: "once", Cmds: []C{{Defer: true}, P(), P()}},
 	}}
+	// a callee whose dependency group fails while another of its deps (with a defer) is still
+	// running; the caller ignores the failure and goes on, and has a defer of its own
+	m["ignored-callee-with-failing-dep-group"] = &Prog{Tasks: []*T{
+		{Name: "root", IgnoreError: true, Cmds: []C{{Defer: true}, Call("c"), P()}},
+		{Name: "c", Deps: []Ref{D("slow"), D("bad")}, Cmds: []C{P()}},
+		{Name: "slow", Cmds: []C{{Defer: true}, P(), P()}},
+		{Name: "bad", Cmds: []C{F()}},
+	}}
 	m["two-callers-same-task"] = &Prog{Tasks: []*T{
 		{Name: "root", Deps: []Ref{D("m1"), D("m2")}},
 		{Name: "m1", Cmds: []C{{Call: &Ref{Task: "callee", Vars: [][2]string{{"X", "from1"}}}}, P()}},
@@ -260,6 +293,7 @@ func c02Units(tier string) []*Unit {
 			us = append(us, &Unit{Name: sc.Name, Sc: sc, Bound: bound, Prune: true, Check: both(c02Check(pg), c01Check(pg)), Weight: len(pg.Tasks)})
 		}
 	}
+	us = append(us, c02ExternalProcessUnit())
 	return us
 }
 
@@ -282,4 +316,70 @@ func both(fs ...func(x *vlab.Exec) []vlab.Violation) func(x *vlab.Exec) []vlab.V
 		}
 		return out
 	}
+}
+
+// Entries that are external processes (everything else in this check uses shell builtins, which
+// end with the interpreter): a process that takes its time to die after the interrupt that a
+// failing sibling causes is still part of its entry; the task's deferred command and the end of
+// the invocation come after it. The oracle is an order of appended lines, not a duration: on a
+// tree that waits for the process the order is the same however slow the machine is.
+func c02ExternalProcessUnit() *Unit {
+	name := "external-process-outlives-interrupt"
+	return &Unit{Name: name, Weight: 1, Custom: func(u *Unit, dir string, deadline time.Time) *vlab.UnitResult {
+		res := &vlab.UnitResult{SigCounts: map[string]int{}, Extra: map[string]any{}}
+		n := 0
+		var samples []any
+		for _, variant := range []string{"deps", "parallel"} {
+			tf := "version: '3'\ntasks:\n  default:\n    deps: [slow, bad]\n" +
+				"  slow:\n    cmds:\n      - defer: echo deferred >> log.txt\n      - sh -c 'trap \"\" INT TERM; echo started >> log.txt; sleep 1; echo slow-done >> log.txt'\n      - echo next-entry >> log.txt\n" +
+				"  bad:\n    cmds:\n      - sh -c 'while ! grep -q started log.txt 2>/dev/null; do sleep 0.05; done; exit 3'\n"
+			files := map[string]string{"Taskfile.yml": tf}
+			os.RemoveAll(dir)
+			os.MkdirAll(dir, 0o755)
+			os.WriteFile(filepath.Join(dir, "Taskfile.yml"), []byte(tf), 0o644)
+			args := []string{"--silent"}
+			if variant == "parallel" {
+				args = append(args, "--parallel", "slow", "bad")
+			}
+			_, se, rc := RunCLI(dir, nil, "", args...)
+			n++
+			b, _ := os.ReadFile(filepath.Join(dir, "log.txt"))
+			lines := strings.Fields(string(b))
+			got := strings.Join(lines, ",")
+			if len(samples) < 2 {
+				samples = append(samples, map[string]any{"variant": variant, "status": rc, "log": got})
+			}
+			add := func(v vlab.Violation) {
+				v.Scenario = name
+				v.Input = map[string]any{"files": files, "args": args}
+				v.Trace = lines
+				res.SigCounts[v.Sig]++
+				if res.SigCounts[v.Sig] == 1 {
+					res.Violations = append(res.Violations, v)
+				}
+			}
+			if rc == 0 {
+				add(vlab.V("C02", "external_process", variant+":status_zero", "a dependency failed with 3 but the invocation succeeded: "+firstN(se, 120)))
+			}
+			// the interrupted command failed or not (it ignored the signal and exited 0; either way
+			// the deferred command comes after its last line, and "next-entry" only after it too)
+			pos := func(s string) int {
+				for i, l := range lines {
+					if l == s {
+						return i
+					}
+				}
+				return -1
+			}
+			if d, f := pos("deferred"), pos("slow-done"); d < 0 || f < 0 || d < f {
+				add(vlab.V("C02", "external_process", variant+":deferred_before_process_finished", fmt.Sprintf("log %q: the deferred command must run, and only after the interrupted process of the previous entry has exited", got)))
+			}
+			if ne, f := pos("next-entry"), pos("slow-done"); ne >= 0 && (f < 0 || ne < f) {
+				add(vlab.V("C02", "external_process", variant+":next_entry_before_process_finished", fmt.Sprintf("log %q", got)))
+			}
+		}
+		res.Extra["samples"] = samples
+		res.Stats = vlab.Stats{Scenario: name, Execs: n, States: n, Transitions: n, Outcomes: 1, Exhaustive: true}
+		return res
+	}}
 }
